@@ -191,6 +191,11 @@ impl StarkProof {
     ) -> anyhow::Result<stark_proof::PublicInput> {
         // Every memory value must be a field element (the page computations below convert them).
         for m in &public_input.public_memory {
+            // Felt::from_hex panics on some non-hex characters instead of returning an error.
+            let digits = m.value.strip_prefix("0x").unwrap_or(&m.value);
+            if !digits.chars().all(|c| c.is_ascii_hexdigit()) {
+                anyhow::bail!("Invalid memory value");
+            }
             Felt::from_hex(&m.value).map_err(|_| anyhow::anyhow!("Invalid memory value"))?;
         }
         let continuous_page_headers =
